@@ -208,10 +208,11 @@ Qed.
 (** through an index only cached rows are found *)
 Lemma first_index_hit_sub mvals : forall sm us,
   Forall (fun p => Inv1 T (rc_rows c) p.1 p.2) sm ->
-  first_index_hit T true mvals sm = Some us -> us ⊆ dom (rc_rows c) /\ us <> ∅.
+  first_usable_hit T mvals sm = Some us -> us ⊆ dom (rc_rows c) /\ us <> ∅.
 Proof.
   induction sm as [|[s m] sm IH]; intros us Hall Hf; [discriminate|].
-  inversion Hall as [|? ? [Hne Hm] Hrest]; subst. cbn in Hf. rewrite andb_false_r in Hf. cbn in Hm, Hne.
+  inversion Hall as [|? ? [Hne Hm] Hrest]; subst. cbn in Hf. cbn in Hm, Hne.
+  destruct (usable T s mvals); [|apply IH; assumption].
   destruct (m !! K T s mvals) as [us'|] eqn:Hk.
   - inversion Hf; subst. split.
     + intros u Hu. assert (Hu' : u ∈ i_get m (K T s mvals)) by (unfold i_get; rewrite Hk; exact Hu).
@@ -229,12 +230,12 @@ Qed.
 Lemma rbm_step_sub acc m : acc ⊆ dom (rc_rows c) -> rbm_step T specs c acc m ⊆ dom (rc_rows c).
 Proof.
   intros Hacc. unfold rbm_step.
-  assert (Hby : default ∅ (first_index_hit T true m.2 (zip specs (rc_idx c))) ⊆ dom (rc_rows c)).
-  { destruct (first_index_hit T true m.2 (zip specs (rc_idx c))) as [us|] eqn:Hf; [|cbn; set_solver].
+  assert (Hby : default ∅ (first_usable_hit T m.2 (zip specs (rc_idx c))) ⊆ dom (rc_rows c)).
+  { destruct (first_usable_hit T m.2 (zip specs (rc_idx c))) as [us|] eqn:Hf; [|cbn; set_solver].
     apply first_index_hit_sub in Hf as [Hs _]; [exact Hs|apply Inv_zip]. }
   destruct m.1 as [u|]; [|set_solver].
-  destruct (bool_decide (u ∉ acc) && bool_decide (is_Some (rc_rows c !! u))) eqn:Hb; [|set_solver].
-  apply andb_prop in Hb as [_ Hb]. apply bool_decide_eq_true in Hb. apply elem_of_dom in Hb. set_solver.
+  destruct (bool_decide (is_Some (rc_rows c !! u))) eqn:Hb; [|set_solver].
+  apply bool_decide_eq_true in Hb. apply elem_of_dom in Hb. set_solver.
 Qed.
 
 Theorem matches_sub_dom cd : matches T specs c cd ⊆ dom (rc_rows c).
@@ -263,7 +264,7 @@ Lemma foldl_rbm_mono ms : forall acc, acc ⊆ foldl (rbm_step T specs c) acc ms.
 Proof.
   induction ms as [|m ms IH]; intros acc; [reflexivity|]. cbn. etransitivity; [|apply IH].
   unfold rbm_step. destruct m.1 as [u|]; [|set_solver].
-  destruct (bool_decide (u ∉ acc) && bool_decide (is_Some (rc_rows c !! u))); set_solver.
+  destruct (bool_decide (is_Some (rc_rows c !! u))); set_solver.
 Qed.
 
 Lemma foldl_rbm_empty ms : foldl (rbm_step T specs c) ∅ ms = ∅ -> Forall (fun m => rbm_step T specs c ∅ m = ∅) ms.
@@ -277,15 +278,19 @@ Qed.
 
 Lemma first_index_hit_some mvals s m : forall sm i,
   Forall (fun p => Inv1 T (rc_rows c) p.1 p.2) sm ->
-  sm !! i = Some (s, m) -> is_Some (m !! K T s mvals) ->
-  exists us, first_index_hit T true mvals sm = Some us /\ us <> ∅.
+  sm !! i = Some (s, m) -> usable T s mvals = true -> is_Some (m !! K T s mvals) ->
+  exists us, first_usable_hit T mvals sm = Some us /\ us <> ∅.
 Proof.
-  induction sm as [|[s0 m0] sm IH]; intros i Hall Hi Hk; [destruct i; discriminate|].
-  inversion Hall as [|? ? [Hne _] Hrest]; subst. cbn. rewrite andb_false_r. cbn in Hne.
-  destruct (m0 !! K T s0 mvals) as [us0|] eqn:H0.
-  - exists us0. split; [reflexivity|]. intros ->. apply (Hne (K T s0 mvals)). exact H0.
+  induction sm as [|[s0 m0] sm IH]; intros i Hall Hi Hus Hk; [destruct i; discriminate|].
+  inversion Hall as [|? ? [Hne _] Hrest]; subst. cbn. cbn in Hne.
+  destruct (usable T s0 mvals) eqn:Hu0.
+  - destruct (m0 !! K T s0 mvals) as [us0|] eqn:H0.
+    + exists us0. split; [reflexivity|]. intros ->. apply (Hne (K T s0 mvals)). exact H0.
+    + destruct i as [|i]; cbn in Hi.
+      * inversion Hi; subst. rewrite H0 in Hk. destruct Hk; discriminate.
+      * eapply IH; eauto.
   - destruct i as [|i]; cbn in Hi.
-    + inversion Hi; subst. rewrite H0 in Hk. destruct Hk; discriminate.
+    + inversion Hi; subst. rewrite Hus in Hu0. discriminate.
     + eapply IH; eauto.
 Qed.
 
@@ -311,8 +316,7 @@ Proof.
   unfold model_eq_conds in Hc. unfold rbm_step in He. destruct m as [[u0|] mv]; cbn [fst snd] in *.
   - (* by uuid: the row does not exist *)
     inversion Hc; subst cs. apply row_matches_uuid in Hm. subst u0.
-    rewrite bool_decide_eq_true_2 in He by set_solver. rewrite bool_decide_eq_true_2 in He by eauto.
-    cbn in He. set_solver.
+    rewrite bool_decide_eq_true_2 in He by eauto. set_solver.
   - (* by index *)
     destruct (List.find (forallb (col_nondefault T mv)) (t_indexes T)) as [idx|] eqn:Hf; [|discriminate].
     cbn in Hc. apply find_some in Hf as [Hidx Hnd].
@@ -334,7 +338,10 @@ Proof.
       unfold col_key. cbn [fst snd]. rewrite Hv', Hv; reflexivity. }
     assert (Hk : is_Some (mi !! K T s mv)).
     { apply (index_entry_iff T specs c i s mi (K T s mv) HI Hs Hmi). exists u, r. split; [exact Hr|exact HK]. }
-    destruct (first_index_hit_some mv s mi _ i Hz Hzi Hk) as (us & Hus & Hne).
+    assert (Husable : usable T s mv = true).
+    { unfold usable. rewrite Hcols. apply forallb_forall. intros ck Hck. apply in_map_iff in Hck as (col & <- & Hcol).
+      unfold ck_usable. cbn [fst snd]. rewrite forallb_forall in Hnd. apply Hnd. exact Hcol. }
+    destruct (first_index_hit_some mv s mi _ i Hz Hzi Husable Hk) as (us & Hus & Hne).
     rewrite Hus in He. cbn in He. apply Hne. set_solver.
 Qed.
 
